@@ -122,6 +122,8 @@ def c20(tier):
     uw.vg4(P, C)
     # a FITS handle opened by a failed operation is closed on every path (all memory *and* handles are returned)
     ed.rh1(P, C)
+    # comparison is one of the operations of a history: it must be total (two empty tables)
+    pm.es1(P, C)
     C.extra["units"] = sorted(P.units.keys())
     C.extra["mutators"] = [ts.fshort(f) for f in ts.mutators(P)]
     return C.finish()
